@@ -27,9 +27,15 @@ ASSUMPTIONS = [
 ]
 
 
+ATTR_NAMES = ['x', 'x', 'x', 'number', 'key', 'item', 'length', 'even',
+              'odd', 'letter', 'Letter', 'roman', 'Roman', 'index', 'start',
+              'end', 'var', 'size', 'query', 'count', 'batches', 'x_y']
+
+
 class El:
-    def __init__(self, idn, x, k):
+    def __init__(self, idn, x, k, an='x'):
         self.idn, self.x, self.k = idn, x, k
+        setattr(self, an, x)
 
     def __repr__(self):
         return 'E%d' % self.idn
@@ -112,12 +118,13 @@ def build_source(case):
     if elk.startswith('pair'):
         parts.append('⟦key=%s⟧' % var(sx, 'sequence-key'))
     has_x = elk in ('obj', 'map', 'pair-obj')
+    an = case.get('attr', 'x')
     if elk == 'mixed':
         parts.append('⟦x=%s⟧' % var(sx, 'x', '∅'))
     if has_x:
-        parts.append('⟦var-x=%s⟧' % var(sx, 'sequence-var-x'))
-        parts.append('⟦first-x=%s⟧' % boolean(sx, 'first-x'))
-        parts.append('⟦last-x=%s⟧' % boolean(sx, 'last-x'))
+        parts.append('⟦var-x=%s⟧' % var(sx, 'sequence-var-' + an))
+        parts.append('⟦first-x=%s⟧' % boolean(sx, 'first-' + an))
+        parts.append('⟦last-x=%s⟧' % boolean(sx, 'last-' + an))
         parts.append('⟦x=%s⟧' % var(sx, 'x', '∅'))
     p = opts.get('prefix')
     if p:
@@ -164,16 +171,20 @@ def elements(case):
             # equal sort keys: a sort keeps their input order, reverse
             # mirrors the sorted order
             k = ks[i % len(ks)] % 3
+        an = case.get('attr', 'x')
         if elk == 'obj':
-            out.append(El(i, x, k))
+            out.append(El(i, x, k, an))
         elif elk == 'map':
-            out.append(dict(idn=i, x=x, k=k))
+            out.append({'idn': i, 'x': x, 'k': k, an: x})
         elif elk == 'pair-obj':
-            out.append(('key%02d' % k, El(i, x, k)))
+            out.append(('key%02d' % k, El(i, x, k, an)))
         elif elk == 'pair-str':
             out.append(('key%02d' % k, 'str%d' % i))
         elif elk == 'str':
             out.append('s%02d_%d' % (k, i))
+        elif elk == 'optint':
+            # numbers and None elements
+            out.append(None if x == 0 else k)
         elif elk == 'mixed':
             # heterogeneous: object / string / number / pair by position
             out.append([El(i, x, k), 'm%d' % i, k,
@@ -241,9 +252,10 @@ def expected(case):
         if elk.startswith('pair'):
             row['key'] = shown(sv.get('sequence-key'))
         if has_x:
-            row['var-x'] = shown(sv.get('sequence-var-x'))
-            row['first-x'] = '1' if sv.get('first-x') else '0'
-            row['last-x'] = '1' if sv.get('last-x') else '0'
+            an = case.get('attr', 'x')
+            row['var-x'] = shown(sv.get('sequence-var-' + an))
+            row['first-x'] = '1' if sv.get('first-' + an) else '0'
+            row['last-x'] = '1' if sv.get('last-' + an) else '0'
             e = sv.element(i)
             row['x'] = 'OUTERX' if opts.get('no_push_item') else shown(
                 e['x'] if isinstance(e, dict) else e.x)
@@ -358,7 +370,7 @@ def strategy():
             o['mapping'] = True
         else:
             o['mapping'] = False
-        if c['elkind'] == 'mixed':
+        if c['elkind'] in ('mixed', 'optint'):
             o['sort'] = False
         if not c['xs']:
             o['batch'] = None if not o.get('batch') else o['batch']
@@ -374,11 +386,11 @@ def strategy():
         syntax=st.sampled_from(['dtml', 'ssi', 'epfs']),
         seqkind=st.sampled_from(['list', 'tuple', 'gen', 'iter', 'lazy']),
         elkind=st.sampled_from(['obj', 'obj', 'map', 'pair-obj', 'pair-str',
-                                'str', 'int', 'mixed', 'mixed']),
+                                'str', 'int', 'mixed', 'mixed', 'optint']),
         xs=st.lists(st.integers(0, 2), min_size=0, max_size=12),
         ks=st.permutations(list(range(12))),
         raise_at=st.one_of(st.none(), st.none(), st.integers(0, 5)),
-        ties=st.booleans(),
+        ties=st.booleans(), attr=st.sampled_from(ATTR_NAMES),
         opts=opts)).map(fix)
 
 
@@ -390,7 +402,7 @@ def nontrivial(case):
 
 
 def plan(tier, seed):
-    n = 400 if tier == 'quick' else 6000
+    n = 1500 if tier == 'quick' else 8000
     return [dict(seed=seed * 1000 + i, n=n) for i in range(16)]
 
 
